@@ -180,12 +180,12 @@ ref::File buildFile(const std::vector<Op> &ops, FileInfo *info) {
         int t = static_cast<int>(absmod(o.arg(2), 4));
         p.type = t == 0 ? -1 : (t == 1 ? 1 : (t == 2 ? 2 : 4));
         size_t nd = static_cast<size_t>(clampll(o.arg(3), 0, 7));
-        size_t prod = 1;
+        size_t prod = 1, prodNZ = 1;
         for (size_t i = 0; i < nd; ++i) {
             int d = static_cast<int>(clampll(o.arg(4 + i), 0, 255));
-            // keep a record inside what a 16-bit next-offset can address
-            if (prod * static_cast<size_t>(d ? d : 1) * static_cast<size_t>(p.type < 0 ? 1 : p.type) > 20000) d = 1;
-            p.dims.push_back(d); prod *= static_cast<size_t>(d);
+            // keep a record inside what a 16-bit next-offset can address, and the number of (possibly zero-length) values bounded
+            if (prodNZ * static_cast<size_t>(d ? d : 1) * static_cast<size_t>(p.type < 0 ? 1 : p.type) > 20000) d = 1;
+            p.dims.push_back(d); prod *= static_cast<size_t>(d); prodNZ *= static_cast<size_t>(d ? d : 1);
         }
         Rng r(static_cast<uint64_t>(o.arg(11)));
         size_t n = ref::rawSize(p);
